@@ -394,11 +394,8 @@ func (fc *funcContext) translateExpr(expr ast.Expr) *expression {
 			case token.QUO:
 				if isInteger(basic) {
 					// cut off decimals
-					shift := ">>"
-					if isUnsigned(basic) {
-						shift = ">>>"
-					}
-					return fc.formatExpr(`(%1s = %2e / %3e, (%1s === %1s && %1s !== 1/0 && %1s !== -1/0) ? %1s %4s 0 : $throwRuntimeError("integer divide by zero"))`, fc.newLocalVariable("_q"), e.X, e.Y, shift)
+					q := fc.newLocalVariable("_q")
+					return fc.formatExpr(`(%1s = %2e / %3e, (%1s === %1s && %1s !== 1/0 && %1s !== -1/0) ? %4s : $throwRuntimeError("integer divide by zero"))`, q, e.X, e.Y, fc.fixNumber(fc.formatExpr("%s", q), basic))
 				}
 				if basic.Kind() == types.Float32 {
 					return fc.fixNumber(fc.formatExpr("%e / %e", e.X, e.Y), basic)
